@@ -68,6 +68,16 @@ Proof.
 Qed.
 Print Assumptions C01_search_vs_reference_partial.
 
+(* The fuel suffices (for every square or non-square matrix g, simple or not): there is a bound depending only on n (the number of nodes of a tree of depth n
+   and degree n+1) from which on the model never returns the out-of-fuel result and its result no
+   longer depends on the fuel; what the model returns with that fuel is Ok or the model of a Go panic. *)
+Theorem C01_search_fuel_suffices_partial :
+  forall (g : graph) (cls : option (list (list nat))) fuel,
+    cls_ok (length g) cls -> search_fuel (length g) <= fuel ->
+    canon_search fuel g cls <> Fuel /\ canon_search fuel g cls = canon_search (search_fuel (length g)) g cls.
+Proof. intros g cls fuel Hc Hf. exact (search_terminates g cls Hc fuel Hf). Qed.
+Print Assumptions C01_search_fuel_suffices_partial.
+
 (* Non-vacuity: the search on the 6-cycle, with and without vertex classes, returns (fuel 100
    suffices; with fuel 3 the distinct result Fuel is returned). *)
 Example C01_search_nonvacuous :
